@@ -32,7 +32,7 @@ ASSUMPTIONS = [
     "a page with no MediaBox anywhere defaults to US Letter (documented fallback)",
     "step budget = 400 monitored events per input byte + 200000",
 ]
-PROBES = ["walk abandoned, then repeated on the same document", "fault:repeat", "fault:self", "fault:ancestor", "fault:root", "fault:cross", "reversed corners", "rotate negative", "indirect attribute", "inherited from grandparent", "consumer stopped early", "page_numbers with maxpages", "eviction happened"]
+PROBES = ["/Parent points elsewhere", "walk abandoned, then repeated on the same document", "fault:repeat", "fault:self", "fault:ancestor", "fault:root", "fault:cross", "reversed corners", "rotate negative", "indirect attribute", "inherited from grandparent", "consumer stopped early", "page_numbers with maxpages", "eviction happened"]
 TIERS = {
     "quick": {"batches": 16, "runs": 700, "budget_s": 45},
     "thorough": {"batches": 128, "runs": 800, "budget_s": 900},
@@ -256,6 +256,22 @@ def serialise(t, ctx, root, nodes, counter):
         d = {b"Type": Name(b"Pages" if n.kind == "pages" else b"Page")}
         if n.parent is not None:
             d[b"Parent"] = Ref(n.parent.oid, 0)
+            if t.coin(8, 100, "parent.elsewhere"):
+                # /Parent names something that is not the node listing this one in its /Kids: a decoy outside the tree that
+                # carries every inheritable attribute, another node of the tree, or nothing at all.  Attributes are
+                # inherited along the /Kids path the walk takes; /Parent decides nothing
+                how = t.pick(["decoy", "other", "missing"], "parent.elsewhere.how")
+                if how == "decoy":
+                    counter[0] += 1
+                    objects[counter[0]] = {b"Type": Name(b"Pages"), b"Kids": [], b"Count": 0, b"Rotate": 90, b"MediaBox": [5, 5, 55, 55], b"CropBox": [6, 6, 50, 50], b"Resources": {b"Font": {b"F1": docs.std_font(b"Symbol")}, b"Decoy": {}}}
+                    d[b"Parent"] = Ref(counter[0], 0)
+                elif how == "other":
+                    others = [m for m in nodes.values() if m.kind == "pages" and m is not n.parent and m is not n]
+                    if others:
+                        d[b"Parent"] = Ref(t.pick(others, "parent.elsewhere.node").oid, 0)
+                else:
+                    d[b"Parent"] = Ref(9999, 0)
+                ctx.probe("/Parent points elsewhere")
         if "Resources" in n.attrs:
             k = n.attrs["Resources"]
             fd = {b"F1": fontref(k)} if not t.coin(20, 100, "font.direct") else {b"F1": docs.std_font(docs.STD14[k])}
